@@ -18,6 +18,7 @@ Partial: the placement of the region's operators into one tick is modelled (prod
 `BeginAtomic`/`EndAtomic`/`Batch` to `out = in` on one DFIR graph), tied by the corpus only.
 -/
 import HvHydro2.Model.Atomic
+import HvHydro2.Model.SimTie
 import HvHydro2.Lemmas.Keyed
 import Mathlib.Data.List.Basic
 
@@ -90,6 +91,40 @@ theorem later_snapshot_extends_earlier {σ α : Type} (f : σ → α → σ) (s 
     congr 3
     have : t + d + 1 = (t + 1) + d := by omega
     rw [this, List.take_add]
+
+/-- What an atomic snapshot reads is the fold of a PREFIX of all the writes (buffered + arriving, in
+order), namely of exactly those acknowledged so far - for every schedule.  This is the shape the
+verdict `simAtomicOk` on recorded simulator executions accepts: a response is the sum of a prefix of
+the writes that contains every write acknowledged before. -/
+theorem atomic_snapshot_reads_acked_prefix {σ α : Type} (f : σ → α → σ) (s : AtomSt σ α)
+    (sched : List (List α × Nat)) (t : Nat) (a : List α) (st : σ)
+    (h : (runAtomic f s sched)[t]? = some (a, st)) :
+    acksUpTo (runAtomic f s sched) t <+: s.buf ++ (sched.map (fun p => p.1)).flatten ∧
+      st = (acksUpTo (runAtomic f s sched) t).foldl f s.st := by
+  refine ⟨?_, ack_implies_visible f s sched t a st h⟩
+  induction sched generalizing s t with
+  | nil => simp [runAtomic] at h
+  | cons p rest ih =>
+    obtain ⟨arr, n⟩ := p
+    cases t with
+    | zero =>
+      simp only [acksUpTo, runAtomic, atomTick, List.take_succ_cons, List.take_zero, List.map_cons,
+        List.map_nil, List.flatten_cons, List.flatten_nil, List.append_nil]
+      rw [← List.append_assoc]
+      exact (List.take_prefix n _).trans (List.prefix_append _ _)
+    | succ t =>
+      simp only [runAtomic, List.getElem?_cons_succ] at h
+      have := ih (atomTick f s arr n).1 t h
+      simp only [acksUpTo, runAtomic, List.take_succ_cons, List.map_cons, List.flatten_cons] at this ⊢
+      simp only [atomTick] at this ⊢
+      have e : s.buf ++ (arr ++ (rest.map (fun p => p.1)).flatten) =
+          (s.buf ++ arr).take n ++ ((s.buf ++ arr).drop n ++ (rest.map (fun p => p.1)).flatten) := by
+        rw [← List.append_assoc, ← List.append_assoc, List.take_append_drop]
+      rw [e]
+      exact (List.prefix_append_right_inj _).2 this
+
+example : simAtomicOk [.w 2, .w 3, .ack 2, .r 1, .fin, .ack 3, .resp 1 5] = true ∧
+    simAtomicOk [.w 2, .ack 2, .r 1, .fin, .resp 1 0] = false := by decide
 
 /-! ### the keyed counter -/
 
